@@ -248,6 +248,21 @@ def producer(prog, run):
     if not rets or not isinstance(rets[-1].value.elts[1], ast.Name):
         run.ob("R-vec-order", fi.qual, "factor", None, "returned covariance factor not found", file=f)
         return None
+    # the quantities the rules below are written in, found by what they are: the returned matrix, the samples per block (`<N> // nb`)
+    # and the number of columns that quotient is taken of
+    ren = {}
+    if isinstance(rets[-1].value.elts[0], ast.Name):
+        ren[rets[-1].value.elts[0].id] = "Hank"
+    for a_ in ast.walk(pf.node):
+        if isinstance(a_, ast.Assign) and len(a_.targets) == 1 and isinstance(a_.targets[0], ast.Name) and isinstance(a_.value, ast.BinOp) \
+                and isinstance(a_.value.op, ast.FloorDiv) and isinstance(a_.value.right, ast.Name) and a_.value.right.id == (pos[5] if len(pos) > 5 else "nb") \
+                and isinstance(a_.value.left, ast.Name):
+            ren[a_.targets[0].id] = "Nb"
+            ren[a_.value.left.id] = "N"
+    if len(pos) > 5:
+        ren[pos[5]] = "nb"
+    astq.rename_locals(pf, ren)
+    rets = [n for n in ast.walk(pf.node) if isinstance(n, ast.Return) and isinstance(n.value, ast.Tuple) and len(n.value.elts) == 2]
     tname = rets[-1].value.elts[1].id
     store = None
     for n in ast.walk(pf.node):
@@ -376,18 +391,23 @@ def consumers(prog, run, producer_order):
     pf = astq.PrunedFn(fi, {"calc_unc": True})
     pos, _, _, _ = astq.params_of(fi.node)
     tname = "T" if "T" in pos + astq.params_of(fi.node)[1] else None
-    krons = [c for c in ast.walk(pf.node) if isinstance(c, ast.Call) and astq.callee_name(prog, pf, c) == "numpy.kron" and len(c.args) == 2]
     used = []
-    pm = astq.parent_map(pf.node)
-    for k in krons:
-        par = pm.get(k)
-        # applied to T?
-        if not (isinstance(par, ast.Call) and astq.callee_name(prog, pf, par) in ("numpy.dot", "numpy.matmul") and len(par.args) == 2 and par.args[0] is k
-                and isinstance(par.args[1], ast.Name) and par.args[1].id == tname):
-            if not (isinstance(par, ast.BinOp) and isinstance(par.op, ast.MatMult) and par.left is k and isinstance(par.right, ast.Name) and par.right.id == tname):
-                continue
-        a0 = astq.expr_at(pf, k, k.args[0])
-        a1 = astq.expr_at(pf, k, k.args[1])
+    # products <something> . T: the left factor, written there or held in a name, is a Kronecker form
+    krons = []
+    for c in ast.walk(pf.node):
+        left = None
+        if isinstance(c, ast.Call) and astq.callee_name(prog, pf, c) in ("numpy.dot", "numpy.matmul") and len(c.args) == 2 and isinstance(c.args[1], ast.Name) and c.args[1].id == tname:
+            left = c.args[0]
+        elif isinstance(c, ast.BinOp) and isinstance(c.op, ast.MatMult) and isinstance(c.right, ast.Name) and c.right.id == tname:
+            left = c.left
+        if left is None:
+            continue
+        lx = astq.expr_at(pf, c, left) if isinstance(left, ast.Name) else left
+        if isinstance(lx, ast.Call) and astq.callee_name(prog, pf, lx) == "numpy.kron" and len(lx.args) == 2:
+            krons.append((lx, c))
+    for k, site in krons:
+        a0 = astq.expr_at(pf, site, k.args[0])
+        a1 = astq.expr_at(pf, site, k.args[1])
         def is_eye(e):
             return isinstance(e, ast.Call) and astq.callee_name(prog, pf, e) in ("numpy.eye", "numpy.identity")
         vec, side = (a1, "eye-first") if is_eye(a0) else ((a0, "eye-second") if is_eye(a1) else (None, None))
